@@ -19,6 +19,16 @@ and written to lean/YashModel/Generated/TrapTables.lean.
       array form; calls of one another are expanded)       -> `internalOps`
   yash-env/src/system/signal.rs   pub enum Disposition  (must derive Ord) -> `dispositionOrder : List String`
   yash-env/src/semantics.rs       pub enum Divert       (must derive Ord) -> `divertOrder : List String`
+  yash-env/src/trap.rs            TrapSet::enter_subshell (wave 3): the per-condition option selection — the option of
+      `Condition::Exit`, the `if … else if … else` chain of `Condition::Signal` as rows (signals compared with,
+      flags required, option), the `else` option — and the trailing loop `if <flag> { for signal in [..] {
+      … GrandState::ignore … } }`  -> `subshellRules`, `subshellElse`, `subshellExit`, `subshellTrailing`.
+      The loop over `self.traps` must consist of the option selection and the one `state.enter_subshell(..)` call:
+      any further statement (`continue`, an early `return`, a guard) is NOT understood and fails loudly.
+  yash-env/src/stack.rs           pub enum Frame -> `frameVariants : List String`
+  yash-semantics/src/trap/signal.rs   fn in_trap: `env.stack.iter().rev().take_while(|f| **f != Frame::<Stop>)
+      .any(|f| matches!(*f, Frame::Trap(Condition::Signal(_))))` -> `inTrapWalk : Bool × String × String`
+      (walks from the innermost frame?, the frame that stops the walk, the frame looked for)
 
 The mechanism (when a disposition is installed, how pending flags move) is transcribed by hand in
 lean/YashModel/Trap/Model.lean; the hand-typed constants there (`SIGINT … SIGUSR1`, `Disp.rank`,
@@ -39,6 +49,8 @@ SIG = "yash-env/src/signal.rs"
 SYSSIG = "yash-env/src/system/signal.rs"
 SEM = "yash-env/src/semantics.rs"
 TRAP = "yash-env/src/trap.rs"
+STACK = "yash-env/src/stack.rs"
+SEMSIG = "yash-semantics/src/trap/signal.rs"
 
 INT = r"(0[xX][0-9a-fA-F_]+|0[oO][0-7_]+|0[bB][01_]+|[0-9][0-9_]*)(?:[iu](?:8|16|32|64|128|size))?"
 EFFECT_CODE = {"None": 0, "Terminate": 1, "Suspend": 2, "Resume": 3}
@@ -369,6 +381,160 @@ def trap_tables(h):
     disp = enum_variants(h, strip_comments(non_test(h.read(SYSSIG))), "Disposition", SYSSIG, need_ord=True)
     divert = enum_variants(h, strip_comments(non_test(h.read(SEM))), "Divert", SEM, need_ord=True)
 
+    # --- TrapSet::enter_subshell: the option selection (wave 3) -------------------------------------------
+    m = re.search(r"pub\s+async\s+fn\s+enter_subshell\b|pub\s+fn\s+enter_subshell\b", tsrc)
+    if not m:
+        h.fail(f"anchor not found: pub async fn enter_subshell in {TRAP}")
+    i = tsrc.index("(", m.end())
+    depth = 0
+    while True:
+        depth += {"(": 1, ")": -1}.get(tsrc[i], 0)
+        i += 1
+        if depth == 0:
+            break
+    es_params = tsrc[tsrc.index("(", m.end()):i]
+    es_body = brace_body(h, tsrc, i, f"enter_subshell in {TRAP}")
+    flag_names = re.findall(r"\b(\w+)\s*:\s*bool\b", es_params)
+    if len(flag_names) != 2:
+        h.fail(f"{TRAP}: enter_subshell: expected two `bool` parameters, found {flag_names}")
+    OPTS = ("KeepInternalDisposition", "ClearInternalDisposition", "Ignore")
+
+    def opt_of(text, what):
+        names = re.findall(r"\bEnterSubshellOption::(\w+)|\b(KeepInternalDisposition|ClearInternalDisposition)\b", text)
+        names = [a or b for a, b in names]
+        if len(names) != 1 or names[0] not in OPTS:
+            h.fail(f"{TRAP}: enter_subshell: {what}: expected exactly one EnterSubshellOption, found {names} in `{text.strip()[:80]}`")
+        return names[0]
+
+    fm = re.search(r"\bfor\s*\(\s*&?\s*(\w+)\s*,\s*(\w+)\s*\)\s*in\s*&mut\s+self\s*\.\s*traps\b|"
+                   r"\bfor\s*\(\s*&?\s*(\w+)\s*,\s*(\w+)\s*\)\s*in\s*self\s*\.\s*traps\s*\.\s*iter_mut\s*\(\s*\)", es_body)
+    if not fm:
+        h.fail(f"{TRAP}: enter_subshell: the loop `for (&cond, state) in &mut self.traps` was not found (shape changed?)")
+    cond_v, state_v = (fm.group(1) or fm.group(3)), (fm.group(2) or fm.group(4))
+    if "clear_parent_states" not in es_body[:fm.start()]:
+        h.fail(f"{TRAP}: enter_subshell: `clear_parent_states()` is no longer called before the loop")
+    loop_body = brace_body(h, es_body, fm.end(), "enter_subshell loop")
+    mm = re.search(r"\blet\s+(\w+)\s*=\s*match\s+\*?\s*" + cond_v + r"\s*\{", loop_body)
+    if not mm:
+        h.fail(f"{TRAP}: enter_subshell: `let option = match {cond_v} {{…}}` not found in the loop (shape changed?)")
+    opt_v = mm.group(1)
+    match_body = brace_body(h, loop_body, mm.end() - 1, "enter_subshell match")
+    after = loop_body[loop_body.index(match_body, mm.end() - 1) + len(match_body) + 1:]
+    rest = (loop_body[:mm.start()] + after).strip()
+    # what remains of the loop body: `;` closing the let, and exactly one statement that calls
+    # `<state>.enter_subshell(.., <option>)`
+    stmts = [x.strip() for x in rest.split(";") if x.strip()]
+    if len(stmts) != 1 or not re.fullmatch(
+            r"(?:let\s+_\s*=\s*)?" + state_v + r"\s*\.\s*enter_subshell\s*\([^()]*\b" + opt_v + r"\b[^()]*\)"
+            r"(?:\s*\.\s*await)?(?:\s*\.\s*ok\s*\(\s*\))?", stmts[0], re.S):
+        h.fail(f"{TRAP}: enter_subshell: the loop over the trap set contains statements that are not understood "
+               f"(expected only the option selection and `{state_v}.enter_subshell(..)`): {stmts}")
+    sub_exit, sub_rules, sub_else = None, [], None
+    for arm in split_arms(match_body):
+        pat, _, val = arm.partition("=>")
+        pat, val = pat.strip(), val.strip()
+        if re.fullmatch(r"(?:Condition::)?Exit", pat):
+            sub_exit = opt_of(val, "Exit arm")
+            continue
+        ms = re.fullmatch(r"(?:Condition::)?Signal\s*\(\s*(\w+)\s*\)", pat)
+        if not ms:
+            h.fail(f"{TRAP}: enter_subshell: cannot read the match arm `{pat[:60]}`")
+        sig_v = ms.group(1)
+        val = re.sub(r"#\[[^\]]*\]", "", val).strip()
+        while val.startswith("{") and val.endswith("}") and brace_body(h, val, 0, "arm") == val[1:-1]:
+            val = val[1:-1].strip()
+        pos = 0
+        while True:
+            mi = re.match(r"\s*if\b", val[pos:])
+            if not mi:
+                h.fail(f"{TRAP}: enter_subshell: Signal arm: expected `if`, found `{val[pos:pos + 40]}`")
+            b = val.find("{", pos)
+            # the condition ends at the `{` that is not inside parentheses
+            depth, k = 0, pos + mi.end()
+            while k < len(val) and not (val[k] == "{" and depth == 0):
+                depth += {"(": 1, ")": -1, "[": 1, "]": -1}.get(val[k], 0)
+                k += 1
+            cond = val[pos + mi.end():k]
+            block = brace_body(h, val, k, "if block")
+            option = opt_of(block, "if block")
+            sigs = re.findall(r"\b(?:S|Self)::(SIG[A-Z0-9]+)\b", cond)
+            for s_ in sigs:
+                if s_ not in num:
+                    h.fail(f"{TRAP}: enter_subshell: unknown signal constant {s_}")
+            flags = [f for f in flag_names if re.search(r"\b" + f + r"\b", cond)]
+            if re.search(r"\binternal_disposition\s*\(\s*\)\s*!=\s*(?:\w+::)*Default\b", cond):
+                flags.append("internal_disposition_not_default")
+            elif "internal_disposition" in cond:
+                h.fail(f"{TRAP}: enter_subshell: a test of internal_disposition() other than `!= Disposition::Default`: `{cond.strip()[:100]}`")
+            # every identifier of the condition must be one we classified
+            known = set(flag_names) | {sig_v, state_v, "S", "Self", "Disposition", "Default", "internal_disposition",
+                                        "matches", "contains"} | set(sigs)
+            for ident in re.findall(r"[A-Za-z_]\w*", cond):
+                if ident not in known:
+                    h.fail(f"{TRAP}: enter_subshell: identifier `{ident}` in the condition `{cond.strip()[:100]}` is not understood")
+            # conjunction of flags and ONE group of signal alternatives: no `||` outside that group, no negation
+            stripped = re.sub(r"\(([^()]*)\)", lambda g: "" if "SIG" in g.group(1) else g.group(0), cond)
+            stripped = re.sub(r"matches!\s*$", "", stripped.strip())
+            if "||" in stripped and len(sigs) > 1 and flags:
+                h.fail(f"{TRAP}: enter_subshell: `||` outside the group of signal comparisons in `{cond.strip()[:100]}`")
+            if re.search(r"!(?!=)", re.sub(r"matches!", "", cond)):
+                h.fail(f"{TRAP}: enter_subshell: a negation in `{cond.strip()[:100]}` is not understood")
+            if not sigs:
+                h.fail(f"{TRAP}: enter_subshell: a condition that names no signal: `{cond.strip()[:100]}`")
+            sub_rules.append((sigs, flags, option))
+            pos = val.index(block, k) + len(block) + 1
+            me = re.match(r"\s*else\b", val[pos:])
+            if not me:
+                h.fail(f"{TRAP}: enter_subshell: Signal arm: the `if` chain has no final `else`")
+            pos += me.end()
+            if re.match(r"\s*if\b", val[pos:]):
+                continue
+            sub_else = opt_of(brace_body(h, val, pos, "else block"), "else block")
+            break
+    if sub_exit is None or sub_else is None or not sub_rules:
+        h.fail(f"{TRAP}: enter_subshell: Exit arm / Signal arm not both found")
+    # trailing: `if <flag> { for signal in [S::A, S::B] { … GrandState::ignore … } }`
+    tail = es_body[fm.end() + len(loop_body) + 2:]
+    mt = re.search(r"\bif\s+(\w+)\s*\{", tail)
+    if not mt or mt.group(1) not in flag_names or "ignore" not in tail:
+        h.fail(f"{TRAP}: enter_subshell: the trailing `if <flag> {{ for signal in [..] {{ … GrandState::ignore … }} }}` was not found")
+    tail_block = brace_body(h, tail, mt.end() - 1, "trailing if")
+    mf = re.search(r"\bfor\s+\w+\s+in\s+\[([^\]]*)\]", tail_block)
+    if not mf or not re.search(r"\bGrandState\s*::\s*ignore\b", tail_block) or "Vacant" not in tail_block:
+        h.fail(f"{TRAP}: enter_subshell: trailing block: expected `for signal in [..]` with `Entry::Vacant => GrandState::ignore`")
+    tail_sigs = re.findall(r"\b(?:S|Self)::(SIG[A-Z0-9]+)\b", mf.group(1))
+    if not tail_sigs or any(s_ not in num for s_ in tail_sigs):
+        h.fail(f"{TRAP}: enter_subshell: trailing block: cannot read the signal list `{mf.group(1)[:60]}`")
+    if tail[mt.end() - 1 + len(tail_block) + 2:].strip():
+        h.fail(f"{TRAP}: enter_subshell: statements after the trailing block are not understood")
+    sub_trailing = (tail_sigs, mt.group(1))
+    flag_pos = {f: k for k, f in enumerate(flag_names)}
+
+    # --- stack::Frame and in_trap (wave 3) ----------------------------------------------------------------
+    frame_variants = enum_variants(h, strip_comments(non_test(h.read(STACK))), "Frame", STACK, need_ord=False)
+    ssem = strip_comments(non_test(h.read(SEMSIG)))
+    mi = re.search(r"\bfn\s+in_trap\b", ssem)
+    if not mi:
+        h.fail(f"anchor not found: fn in_trap in {SEMSIG}")
+    i = ssem.index("(", mi.end())
+    depth = 0
+    while True:
+        depth += {"(": 1, ")": -1}.get(ssem[i], 0)
+        i += 1
+        if depth == 0:
+            break
+    it_body = re.sub(r"\s+", "", brace_body(h, ssem, i, f"in_trap in {SEMSIG}"))
+    mw = re.fullmatch(
+        r"\w+\.stack\.iter\(\)(\.rev\(\))?\.take_while\(\|(\w+)\|(?:\*\*\2!=Frame::(\w+)|!matches!\(\*?\*?\2,Frame::(\w+)\))\)"
+        r"\.any\(\|(\w+)\|matches!\(\*?\*?\5,Frame::Trap\(Condition::Signal\((?:_|\.\.)\)\)\)\);?", it_body)
+    if not mw:
+        h.fail(f"{SEMSIG}: in_trap: the body is not the iterator chain "
+               "`env.stack.iter().rev().take_while(|f| **f != Frame::X).any(|f| matches!(*f, Frame::Trap(Condition::Signal(_))))`: "
+               f"`{it_body[:160]}`")
+    in_trap_walk = (bool(mw.group(1)), mw.group(3) or mw.group(4), "Trap.Signal")
+    if in_trap_walk[1] not in frame_variants or "Trap" not in frame_variants:
+        h.fail(f"{SEMSIG}: in_trap: frame {in_trap_walk[1]} / Trap is not a variant of stack::Frame")
+
     def pairs(l, f):
         items = [f(x) for x in l]
         lines, cur = [], "  ["
@@ -406,7 +572,27 @@ def trap_tables(h):
         f"/-- declaration order of `pub enum Disposition` ({SYSSIG}; `Ord` is derived) -/\n"
         "def dispositionOrder : List String := [" + ", ".join(h.lean_str(v) for v in disp) + "]\n\n"
         f"/-- declaration order of `pub enum Divert` ({SEM}; `Ord` is derived) -/\n"
-        "def divertOrder : List String := [" + ", ".join(h.lean_str(v) for v in divert) + "]\n"
+        "def divertOrder : List String := [" + ", ".join(h.lean_str(v) for v in divert) + "]\n\n"
+        f"/-- `TrapSet::enter_subshell` ({TRAP}): the `if … else if` chain of the `Condition::Signal` arm, one row per\n"
+        "    condition in source order: (signals compared with, flags required — 0/1 = the first/second `bool`\n"
+        "    parameter, 2 = `state.internal_disposition() != Default` —, option chosen) -/\n"
+        "def subshellRules : List (List Nat × List Nat × String) :=\n  ["
+        + ",\n   ".join("([" + ", ".join(str(num[x]) for x in sg) + "], ["
+                        + ", ".join(str(flag_pos.get(f, 2)) for f in fl) + "], " + h.lean_str(op) + ")"
+                        for sg, fl, op in sub_rules) + "]\n\n"
+        "/-- … its final `else`, and the option of the `Condition::Exit` arm -/\n"
+        f"def subshellElse : String := {h.lean_str(sub_else)}\n"
+        f"def subshellExit : String := {h.lean_str(sub_exit)}\n\n"
+        "/-- … the trailing `if <flag> { for signal in [..] { Vacant => GrandState::ignore } }`: signals, flag (0/1) -/\n"
+        "def subshellTrailing : List Nat × Nat := (["
+        + ", ".join(str(num[x]) for x in sub_trailing[0]) + f"], {flag_pos[sub_trailing[1]]})\n\n"
+        f"/-- the `bool` parameters of `enter_subshell`, in order -/\n"
+        "def subshellFlags : List String := [" + ", ".join(h.lean_str(f) for f in flag_names) + "]\n\n"
+        f"/-- variants of `pub enum Frame` ({STACK}), in declaration order -/\n"
+        "def frameVariants : List String := [" + ", ".join(h.lean_str(v) for v in frame_variants) + "]\n\n"
+        f"/-- `in_trap` ({SEMSIG}): walks from the innermost frame (`.rev()`), stops at this frame, looks for that one -/\n"
+        f"def inTrapWalk : Bool × String × String := ({'true' if in_trap_walk[0] else 'false'}, "
+        f"{h.lean_str(in_trap_walk[1])}, {h.lean_str(in_trap_walk[2])})\n"
     )
     h.write("TrapTables", out)
 
